@@ -176,3 +176,42 @@ func vt_C06_pairing_more() {
 // value/coordinate pairing of the octree renderer goes through the distance
 // cache: its transparency harness (C07) is registered under C06 as well.
 func vc_C06_octree_cache_pairing() { vc_C07_cache3() }
+
+// The uniform renderer's sampling lattice covers the bounding box of the shape
+// with padding on every side: for thin boxes (cheap to sample) of several
+// lengths and 60 cell counts the smallest / largest sampled coordinate on every
+// axis lies strictly outside the box. The lattice sizing (division, Ceil) runs
+// concretely: this is an enumeration of the listed sizes, not a symbolic proof.
+type vfCoverProbe struct {
+	bb     sdf.Box3
+	lo, hi v3.Vec
+	n      int
+}
+
+func (l *vfCoverProbe) BoundingBox() sdf.Box3 { return l.bb }
+func (l *vfCoverProbe) Evaluate(p v3.Vec) float64 {
+	if l.n == 0 {
+		l.lo, l.hi = p, p
+	}
+	l.lo, l.hi = l.lo.Min(p), l.hi.Max(p)
+	l.n++
+	return 1
+}
+
+func vc_C06_lattice_covers_box() {
+	lens := []float64{2, 0.6, 9.4, 1, 3.3, 7}
+	L := lens[vfCase("length", len(lens))]
+	for n := 1; n <= 60; n++ {
+		c := n
+		if n > 40 {
+			c = 40 + (n-40)*13 // up to 300 cells
+		}
+		t := L / 4096 // thin: two cells across
+		f := &vfCoverProbe{bb: sdf.Box3{Min: v3.Vec{X: -L / 2, Y: -t, Z: -t}, Max: v3.Vec{X: L / 2, Y: t, Z: t}}}
+		NewMarchingCubesUniform(c).Render(f, sdf.NewTriangle3Buffer(nil))
+		ok := f.n > 0 && f.lo.X < f.bb.Min.X && f.lo.Y < f.bb.Min.Y && f.lo.Z < f.bb.Min.Z &&
+			f.hi.X > f.bb.Max.X && f.hi.Y > f.bb.Max.Y && f.hi.Z > f.bb.Max.Z
+		vfAssert(ok, "the sampling lattice of the uniform renderer extends beyond the bounding box on every side")
+	}
+	vfReach("lattice covers")
+}
